@@ -102,7 +102,7 @@ func splitAfterLF(s string) bool { return strings.Contains(s, "\n"+startM) }
 // ---- mode-transition pieces -------------------------------------------------------------
 
 var piecePayloads = []string{"a", "\n", startM, endM, "\xe2", "\x80", "\xb9", "\xe2\x80", "\x80\xb9", "",
-	"a\n", "\na", startM + "a", "a" + endM, endM + startM, startM + endM, "\n\n", "a\xe2", "\xbaa", startM + "\n", "\xc3", "\xc3" + startM, "º", "‰"}
+	"a\n", "\na", startM + "a", "a" + endM, endM + startM, startM + endM, "\n\n", "a\xe2", "\xbaa", startM + "\n", "\xc3", "\xc3" + startM, "º", "‰", "☺", "⁹"}
 
 var pieceCarriers = []string{"lit", "sSafeString", "sUnsafeString", "sSafeBytes", "sUnsafeBytes", "sWrite", "sWriteString",
 	"printStr", "printSafe", "printRS", "printBytes", "perSafeByte", "perUnsafeByte", "perSafeRune", "perUnsafeRune",
